@@ -474,7 +474,24 @@ def _reachable_after(st, name):
 
 
 def _is_tiny_negative_clamp(call):
-    """round(x, 8) applied under `if x <= 0:` (or inside an assert about >= 0)"""
+    """round(x, 8) applied under `if x <= 0:` (or inside an assert about >= 0); or, for a whole series, `x[neg] = np.round(x[neg], 8)` with
+    `neg = x <= 0`: only the entries that are not positive are touched, at eight or more decimals"""
+    if dotted(call.func) in ("np.round", "np.around") and len(call.args) == 2 and isinstance(call.args[1], ast.Constant) and isinstance(call.args[1].value, int) \
+            and call.args[1].value >= 6 and isinstance(call.args[0], ast.Subscript) and isinstance(call.args[0].value, ast.Name):
+        x, mask = call.args[0].value.id, call.args[0].slice
+        st = getattr(call, "_parent", None)
+        if isinstance(st, ast.Assign) and len(st.targets) == 1 and norm_src(st.targets[0]) == norm_src(call.args[0]):
+            tests = (f"{x} <= 0", f"{x} < 0")
+            if norm_src(mask) in tests:
+                return True
+            if isinstance(mask, ast.Name):
+                fn = st
+                while fn is not None and not isinstance(fn, ast.FunctionDef):
+                    fn = getattr(fn, "_parent", None)
+                defs = [s_.value for s_ in ast.walk(fn) if isinstance(s_, ast.Assign) and any(isinstance(t_, ast.Name) and t_.id == mask.id for t_ in s_.targets)] if fn else []
+                if len(defs) == 1 and norm_src(defs[0]) in tests:
+                    return True
+        return False
     if dotted(call.func) != "round" or len(call.args) != 2 or not (isinstance(call.args[1], ast.Constant) and call.args[1].value >= 6):
         return False
     x = norm_src(call.args[0])
